@@ -33,6 +33,7 @@ var (
 	CallGrace     = 15 * time.Second // blocked callers after Stop returned: typically < 10 ms
 	DumpGapShort  = 3 * time.Second
 	DumpGapLong   = 33 * time.Second // total span 36 s > the longest client timer (32 s)
+	ChainSpan     = 150 * time.Second
 	SyncDeadline  = 45 * time.Second
 	TriggerWait   = 30 * time.Second
 	SecondSyncMax = 45 * time.Second
@@ -201,7 +202,30 @@ func (sp *simPeer) mutate(_ *netsim.Peer, req wire.Message, honest []wire.Messag
 				sp.e.trig.hit("headers")
 			}
 		}
+	case *wire.MsgGetCFCheckpt:
+		// Fixed multi-worker scenarios: no filter checkpoints are served
+		// until the client holds ALL block headers, so that the checkpointed
+		// fetch then runs as ONE round of several batches on several peers.
+		if sp.e.p.HoldCFUntilHeaders {
+			if _, h, err := sp.e.w.Svc.BlockHeaders.ChainTip(); err != nil || int(h) < sp.e.p.ChainLen {
+				return nil
+			}
+		}
 	case *wire.MsgGetCFHeaders:
+		if sp.e.p.HoldCFUntilHeaders {
+			// Same steering for the first filter-header batch: answered only
+			// once all block headers are in (the client re-asks after its
+			// query timeout).
+			if _, h, err := sp.e.w.Svc.BlockHeaders.ChainTip(); err != nil || int(h) < sp.e.p.ChainLen {
+				return nil
+			}
+			// The batch the filter-header goroutine can write next is
+			// answered at once, the later ones a little later: they then
+			// arrive while it is parked in that write.
+			if g, ok := req.(*wire.MsgGetCFHeaders); ok && g.StartHeight > 2001 {
+				time.Sleep(25 * time.Millisecond)
+			}
+		}
 		if len(honest) > 0 {
 			sp.e.trig.hit("cfheaders")
 		}
@@ -761,6 +785,67 @@ func (e *env) hangArgument(gid int, alt string, done <-chan struct{}, full bool)
 	return false, hi
 }
 
+// chainArgument is the second stage for a Stop that has not returned while
+// other parts of the client are still moving (a partial deadlock: Stop stops
+// the subsystems in order, so one that cannot be stopped leaves the later ones
+// running). It watches only Stop's goroutine and the goroutines of the
+// subsystem it is parked in (waitsFor's set) for ChainSpan, which is longer
+// than every timer of the client (32 s x batches query ceiling, 105 s header
+// stall, 120 s ping). Stuck: in every dump Stop and each of those goroutines
+// had exactly the same frames, none was runnable, and in the last dump the Go
+// runtime itself reports each of them as continuously blocked on the same
+// operation for at least two minutes.
+func (e *env) chainArgument(gid int, done <-chan struct{}) (returned bool, stuck bool, why string, set []string) {
+	t0 := time.Now()
+	a := ParseDump(DumpAll())
+	g0 := a[gid]
+	if g0 == nil {
+		return false, false, "Stop goroutine not found", nil
+	}
+	recv := recvRe.FindString(g0.InnerClientFrame())
+	if recv == "" {
+		return false, false, "no receiver in " + g0.InnerClientFrame(), nil
+	}
+	chain := map[int]string{gid: g0.Key()}
+	for id, g := range a {
+		if g != g0 && g.IsClient() && g.Has(recv) && !strings.Contains(g.InnerClientFrame(), ".Stop.func") {
+			chain[id] = g.Key()
+			set = append(set, fmt.Sprintf("goroutine %d [%s] %s", id, g.State, g.InnerClientFrame()))
+		}
+	}
+	sort.Strings(set)
+	if len(chain) == 1 {
+		return false, false, "no goroutine of " + recv + " left to wait for", set
+	}
+	var last map[int]*G
+	for time.Since(t0) < ChainSpan {
+		select {
+		case <-done:
+			return true, false, "returned during the observation", set
+		case <-time.After(DumpGapShort):
+		}
+		last = ParseDump(DumpAll())
+		for id, key := range chain {
+			g := last[id]
+			switch {
+			case g == nil:
+				return false, false, fmt.Sprintf("goroutine %d ended", id), set
+			case g.Key() != key:
+				return false, false, fmt.Sprintf("goroutine %d moved to %s", id, g.InnerClientFrame()), set
+			case g.State == "running" || g.State == "runnable":
+				return false, false, fmt.Sprintf("goroutine %d is %s", id, g.State), set
+			}
+		}
+	}
+	for id := range chain {
+		if last[id].WaitMin < 2 {
+			return false, false, fmt.Sprintf("goroutine %d reported blocked for %d min only", id, last[id].WaitMin), set
+		}
+	}
+	return false, true, fmt.Sprintf("over a further %.0f s (longer than every timer of the client) Stop and the %d goroutine(s) of %s it waits for stayed parked in exactly the same frames in every dump (one every %.0f s), none was ever runnable, and the Go runtime reports each of them as continuously blocked on the same operation for at least 2 minutes; all harness pause points were released; the rest of the client kept running because Stop never got to the subsystems it stops later",
+		time.Since(t0).Seconds(), len(chain)-1, recv, DumpGapShort.Seconds()), set
+}
+
 var recvRe = regexp.MustCompile(`\(\*?[A-Za-z0-9_\[\]\.]+\)`)
 
 // waitsFor names where the other goroutines of the subsystem the blocked call
@@ -837,8 +922,17 @@ func Run(p Plan, res *l2.Result) {
 		e.mu.Unlock()
 	}()
 
-	w := l2.NewWorld(l2.Config{Seed: p.Seed, Preset: p.Preset, Interval: 4 + int(p.Seed%11), SpacingSec: 4,
-		GenesisAgo: spanFor(p.ChainLen)})
+	spacing, span := int64(4), spanFor(p.ChainLen)
+	if p.HoldCFUntilHeaders {
+		// A genesis block older than 24 h: the client is not current when its
+		// filter-header goroutine starts, so that goroutine takes the
+		// checkpointed (work-manager, several workers) path rather than
+		// leaving it to a start-up race.
+		spacing = 16
+		span = time.Duration(int64(p.ChainLen+400)*spacing) * time.Second
+	}
+	w := l2.NewWorld(l2.Config{Seed: p.Seed, Preset: p.Preset, Interval: 4 + int(p.Seed%11), SpacingSec: spacing,
+		GenesisAgo: span})
 	e.w = w
 	defer w.Cleanup()
 	w.Net.ConnCap = p.ConnCap
@@ -998,8 +1092,21 @@ func Run(p Plan, res *l2.Result) {
 						p.State, p.InflightKinds(), p.PeerMix(), time.Since(tFrom).Seconds(), hi.Parked, hi.WaitsFor, hi.Why),
 					witness(map[string]any{"hang": hi}))
 			} else {
-				res.Inconcl("Stop not returned after the watchdog but the client was " + strings.SplitN(hi.Why, ":", 2)[0] + " (Stop parked in " + hi.Parked + ")")
 				e.note("slow stop: %s; parked %s waits for %s", hi.Why, hi.Parked, hi.WaitsFor)
+				ret2, stuck, why, set := e.chainArgument(int(stopGid.Load()), stopDone)
+				switch {
+				case stuck:
+					oc.stop = "hang"
+					hi.Why = why
+					res.Violate(evid.Sig("stop-hang", hi.Parked, "waits-for="+hi.WaitsFor),
+						fmt.Sprintf("Stop (state %s, in flight %s, peers %s) has not returned %.0f s after it was called: parked in %s while %s; %s",
+							p.State, p.InflightKinds(), p.PeerMix(), time.Since(tFrom).Seconds(), hi.Parked, hi.WaitsFor, why),
+						witness(map[string]any{"hang": hi, "waits_for_goroutines": set}))
+				case ret2:
+					res.Inconcl("Stop returned only during the second observation (Stop was parked in " + hi.Parked + ")")
+				default:
+					res.Inconcl("Stop not returned after the watchdog but the client was " + strings.SplitN(hi.Why, ":", 2)[0] + " (Stop parked in " + hi.Parked + "; " + why + ")")
+				}
 			}
 			res.Count("stop_not_returned", 1)
 			close(e.rescanQuit)
